@@ -219,6 +219,11 @@ def gen_streams(rng, w, cfg, adversarial):
             pub = [s for s, _ in sc['mode'] if s != '-' or rng.random() < 0.2]
             if rng.random() < 0.4:
                 pub = pub + rng.sample(['x', '_metrics', 'c'], 1)
+            if rng.random() < 0.35 and pub:
+                # an unsubscribed topic whose name merely STARTS WITH a subscribed name (SUB sockets filter by byte prefix)
+                stem = rng.choice(pub)
+                if not stem.startswith('_') and stem + '_x' not in pub:
+                    pub = pub + [stem + rng.choice(['_x', '2'])]
             if rng.random() < 0.15 and pub:
                 pub = pub[:-1]
             rng.shuffle(pub)
@@ -360,6 +365,9 @@ def run_receiver_case(rng, budget=60, adversarial=False, edge=False):
                     calls[-1]['ret'] = None
                     if rng.random() < 0.5:
                         next_state = state
+                    elif rng.random() < 0.5 and not edge:
+                        # MQ.recv() passes a NEWER id after a timed-out recv() when its own sender was fast-forwarded by a downstream request
+                        next_state = r.prev_id + 1 + rng.choice([1, 2, 4])
                 else:
                     data, st = res
                     bal = 0 if st.balanced is False else 1 if st.balanced is True else int(st.balanced)
@@ -439,6 +447,9 @@ def recv_oracle(run, case, props, wf):
             sc = cfg['srcs'][i]
             mids = sorted({p['mid'] for _, p in lst})
             if not sc['eph']:
+                if 'C02' in props and 'C01' not in props and not cfg['balance'] and mids != [rid]:
+                    run.violation('provenance:wrong-id src=%d ids=%s returned=%d' % (i, mids, rid),
+                                  'the set returned as id %d carries frames that were published under ids %s' % (rid, mids), summary)
                 if 'C01' in props and not cfg['balance'] and mids != [rid]:
                     run.violation('mixed-ids:sync-source src=%d ids=%s returned=%d' % (i, mids, rid),
                                   'a set returned under id %d holds frames published under ids %s' % (rid, mids), summary)
